@@ -1,7 +1,8 @@
 (* C02 (flat part) — a well-formed HTTP/1.x request is parsed into exactly what its bytes denote; field names are
    matched ASCII-case-insensitively with values and same-name order kept; cookies; client / forwarded addresses;
    serialise-then-parse gives an equal request.  Independence from the way the bytes are split across reads is the
-   subject of C02_stream.v (refinement of these flat functions by the BufReader-shaped ones).
+   subject of the companion props file on the stream functions (refinement of these flat functions by the
+   BufReader-shaped ones, StreamBufProofs.v / HttpStreamProofs.v).
    Property theorems only: statements in full, each closed by `exact <lemma>`. *)
 From Hv Require Import Prelude Bytes StreamBuf TablesHttp Http BytesProofs HttpReqSpec HttpReqProofs.
 Open Scope N_scope.
